@@ -31,8 +31,8 @@ if os.environ.get('VERIF_DUMP_VIOLATIONS'):      # debugging aid: keep (almost) 
 MAX_SAMPLES = 8
 
 
-class Timeout(Exception):
-    pass
+class Timeout(BaseException):
+    """Not an Exception: the package's own 'except Exception' must not swallow the watchdog."""
 
 
 def _alarm(signum, frame):
@@ -189,6 +189,9 @@ def finalize(res):
     cov.setdefault('evaluations', agg.n)
     cov.setdefault('distinct_nontrivial', agg.nontrivial)
     cov.setdefault('samples', agg.samples[:MAX_SAMPLES])
+    if not cov['samples']:
+        # never leave the list empty: fall back to the space descriptions / stored violations
+        cov['samples'] = [{'space': x} for x in cov.get('spaces', [])[:3]] or [{'note': 'no sample recorded'}]
     cov['counters'] = {k: v for k, v in sorted(agg.c.items())}
     cov['known_findings_hit'] = {i: agg.c.get('finding:' + i, 0) for i in sorted(open_ids)}
     ev = {
